@@ -205,14 +205,24 @@ def vspec_for(draw, spec, t, hard=True, finite=False, depth=0, omit_defaults=Tru
         if cc.get('index'):
             attr, keyp, kind, xn = cc['index']
             n = draw(st.integers(0, 3))
-            keys = draw(st.lists(st.sampled_from(['p', 'q', 'r', 'k1', 'some_key', 'x y']),
-                                 min_size=n, max_size=n, unique=True))
+            kt = [p.get('type') for p in by[xn]['params'] if p['name'] == keyp][0]
+            pool = ['p', 'q', 'r', 'k1', 'some_key', 'x y']
+            mk = lambda key: ['str', key]
+            if isinstance(kt, list) and kt[0] == 'ref':
+                kc = by[kt[1]]
+                if kc.get('kind') == 'enum':
+                    pool = list(kc['members'])
+                    n = min(n, len(pool))
+                    mk = lambda key: ['enum', kc['name'], key]
+                else:
+                    mk = lambda key: ['strlike', kc['name'], key]
+            keys = draw(st.lists(st.sampled_from(pool), min_size=n, max_size=n, unique=True))
             items = []
             for key in keys:
                 xv = draw(rec(['ref', xn]))
                 if xv is None:
                     continue
-                xv = ['obj', xv[1], [[a, (['str', key] if a == keyp else b)]
+                xv = ['obj', xv[1], [[a, (mk(key) if a == keyp else b)]
                                      for a, b in xv[2]], xv[3]]
                 items.append(xv if kind == 'list' else [['str', key], xv])
             kw.append([attr, ['list' if kind == 'list' else 'dict', items]])
@@ -288,6 +298,9 @@ def project(v, spec=None):
     if k in ('dict', 'odict'):
         return ['m', [[project(a, spec), project(b, spec)] for a, b in v[1]], None]
     if k == 'enum':
+        cc = classes_by_name(spec).get(v[1], {}) if spec else {}
+        if ['scalar_upper'] in (cc.get('savorize') or []):
+            return str_tree(v[2].lower())
         return str_tree(v[2])
     if k == 'strlike':
         return str_tree(v[2])
@@ -581,6 +594,13 @@ def models(draw, feats=(), max_classes=5, doc_type=None):
             if 'sweeten' in feats and draw(st.integers(0, 2)) == 0:
                 ec['sweeten'] = []          # hooks that only log
                 ec['savorize'] = []
+            elif ('sweeten' in feats or 'hooks' in feats) and draw(st.integers(0, 2)) == 0:
+                # the documentation's enum_lowercase recipe: upper-case members,
+                # lower case in the file, converted with Node.set_value()
+                ec['members'] = draw(st.sampled_from([['RED', 'GREEN'], ['RED', 'TRUE'], ['ON', 'NULL', 'A1']]))
+                ec['savorize'] = [['scalar_upper']]
+                if 'sweeten' in feats:
+                    ec['sweeten'] = [['scalar_lower']]
             classes.append(ec)
             enums.append(name)
             continue
@@ -701,14 +721,42 @@ def models(draw, feats=(), max_classes=5, doc_type=None):
             c['bases'] = c['bases'][:1]
         classes.append(c)
         objs.append(name)
-    if 'seasoned' in feats and draw(st.integers(0, 2)) == 0:
+    if 'seasoned' in feats and draw(st.integers(0, 1)) == 0:
         cands = []
         for c in classes:
             if c.get('kind', 'obj') == 'obj' and not c.get('abstract') and \
                     c.get('reg', True) and not c.get('recognize'):
                 for p in c['params']:
-                    if p.get('type') == 'str' and 'default' not in p:
+                    if 'default' in p:
+                        continue
+                    t = p.get('type')
+                    if t == 'str':
                         cands.append((c['name'], p['name']))
+                    elif isinstance(t, list) and t[0] == 'ref':
+                        # the key attribute is an enum or a string-like class:
+                        # the key scalar is then read twice, as a str key and
+                        # as an object of that class
+                        kc = [k for k in classes if k['name'] == t[1]][0]
+                        if kc.get('kind') in ('enum', 'strsub', 'userstring', 'ystring') \
+                                and not kc.get('init_raises') and not kc.get('savorize') \
+                                and kc.get('reg', True):
+                            cands += [(c['name'], p['name'])] * 2
+        if not cands:
+            # give some class an identifying attribute
+            elig = [c for c in classes if c.get('kind', 'obj') == 'obj' and not c.get('abstract')
+                    and c.get('reg', True) and not c.get('recognize') and not c.get('savorize')
+                    and 'ident' not in [p['name'] for p in c['params']]
+                    and not any(c['name'] in k.get('bases', []) for k in classes)]
+            if elig:
+                c = draw(st.sampled_from(elig))
+                keyt = 'str'
+                before = classes[:[k['name'] for k in classes].index(c['name'])]
+                kcs = [k['name'] for k in before if k.get('kind') in ('enum', 'strsub', 'userstring', 'ystring')
+                       and not k.get('init_raises') and not k.get('savorize') and k.get('reg', True)]
+                if kcs and draw(st.booleans()):
+                    keyt = ['ref', draw(st.sampled_from(kcs))]
+                c['params'].insert(0, {'name': 'ident', 'type': keyt})
+                cands.append((c['name'], 'ident'))
         if cands:
             xn, pn = draw(st.sampled_from(cands))
             kind = draw(st.sampled_from(['dict', 'list']))
@@ -774,6 +822,24 @@ def models(draw, feats=(), max_classes=5, doc_type=None):
     names = [c['name'] for c in classes]
     spec['order'] = draw(st.permutations(names))
     return spec
+
+
+def case_hook_enum(spec, name, sweeten=False):
+    """Turn enum `name` of a (deep-copied) spec into the documentation's
+    enum_lowercase recipe: upper-case members, lower case in the file."""
+    for c in spec['classes']:
+        if c['name'] == name and c.get('kind') == 'enum' and not c.get('savorize'):
+            c['members'] = [m.upper() for m in c['members']]
+            if len(set(c['members'])) != len(c['members']):
+                return
+            c['savorize'] = [['scalar_upper']]
+            if sweeten:
+                c['sweeten'] = [['scalar_lower']]
+    for c in spec['classes']:
+        for p in c.get('params', []):
+            d = p.get('default')
+            if d and d[0] == 'enum' and d[1] == name:
+                d[2] = d[2].upper()
 
 
 def referenced_classes(spec):
